@@ -310,7 +310,11 @@ theorem safe_stepC (s s' : St) (h : SafeInv s) (hs : stepC s = some s') : SafeIn
     rename_i i hpc
     have hbt : s.batch = [] := hd.batchEmpty (by rw [hpc]; rfl)
     split at hs
-    · simp at hs
+    · split at hs
+      · simp only [Option.some.injEq] at hs
+        subst hs
+        exact safe_cpc' s h .done (by rw [hpc]; rfl) (fun _ => hbt) (by intro he; simp [csig, enPc] at he)
+      · simp at hs
     · simp only [] at hs
       split at hs
       · simp only [Option.some.injEq] at hs
